@@ -1558,6 +1558,16 @@ var shapeTargets = []shapeTarget{
 	{"internal/app", "setTurnServersIfEmpty", "snapshotReceiver", "assign:r.turnServers", "receiver_turn_keep"},
 	{"internal/app", "setTurnServersIfEmpty", "SnapshotSender", "assign:servers", "sender_turn_rewrite"},
 	{"internal/app", "setTurnServersIfEmpty", "snapshotReceiver", "assign:servers", "receiver_turn_rewrite"},
+	// the FileBegin wake-up protocol between the receiver's data readers and its control loop
+	{"internal/transfer", "wait", "fileWaitRegistry", "body-stmts", "filewait_wait"},
+	{"internal/transfer", "signal", "fileWaitRegistry", "body-stmts", "filewait_signal"},
+	{"internal/transfer", "RecvManifestMultiStream", "", "args:fileReady.wait", "filewait_call_args"},
+	{"internal/transfer", "RecvManifestMultiStream", "", "assign:registered", "filewait_ready_pred"},
+	{"internal/transfer", "RecvManifestMultiStream", "", "args:fileReady.signal", "filewait_signal_args"},
+	{"internal/transfer", "RecvManifestMultiStream", "", "seq:stateByKey[key] = state|fileReady.signal(key)|state := stateByKey[fileKey]|verifhook.Point(\"recv.reader.before_wait\", fileKey)", "filewait_order"},
+	// the frame checksum test of the receiver's data readers (enclosing conditions first)
+	{"internal/transfer", "RecvManifestMultiStream", "", "if-cond-has:!= chunkCRC", "recv_frame_crc_test"},
+	{"internal/transfer", "SendManifestMultiStream", "", "assign:chunkCRC", "send_frame_crc"},
 	// whole decision structure (every `if` condition in source order, enclosing conditions first) of small functions that
 	// hand-written models transcribe line by line
 	{"internal/transfer", "nextChunkToSend", "sendFileState", "if-all", "sendfile_next_chunk"},
@@ -1652,6 +1662,15 @@ func (w *world) shapesIn(body *ast.BlockStmt, sel string) []string {
 		}
 		return res
 	}
+	if sel == "body-stmts" {
+		// every top-level statement of the body, in order, as one line of source text each
+		for _, st := range body.List {
+			var buf bytes.Buffer
+			printer.Fprint(&buf, w.fset, st)
+			res = append(res, strings.Join(strings.Fields(buf.String()), " "))
+		}
+		return res
+	}
 	var stack []ast.Node
 	conds := func() string {
 		var cs []string
@@ -1699,6 +1718,18 @@ func (w *world) shapesIn(body *ast.BlockStmt, sel string) []string {
 		case strings.HasPrefix(sel, "assign:"):
 			if as, ok := n.(*ast.AssignStmt); ok && len(as.Lhs) == 1 && w.exprText(as.Lhs[0]) == sel[7:] {
 				res = append(res, w.exprText(as.Rhs[0]))
+			}
+		case strings.HasPrefix(sel, "seq:"):
+			// simple statements whose text is one of the given ones, in source order
+			switch n.(type) {
+			case *ast.AssignStmt, *ast.ExprStmt:
+				var buf bytes.Buffer
+				printer.Fprint(&buf, w.fset, n)
+				for _, want := range strings.Split(sel[4:], "|") {
+					if buf.String() == want {
+						res = append(res, want)
+					}
+				}
 			}
 		case strings.HasPrefix(sel, "args:"):
 			if c, ok := n.(*ast.CallExpr); ok && w.exprText(c.Fun) == sel[5:] {
